@@ -422,6 +422,20 @@ def check_thresholds(ctx, f, fa, rule):
                 if k:
                     return -k if pol else k
         return 0
+    # a limit is "given" when it is not None: 0 is a limit (reject everything on that side), not the absence of one
+    for n_ in walk_local(f.node):
+        if isinstance(n_, (ast.If, ast.IfExp, ast.While)):
+            parts = [n_.test]
+            while parts:
+                t_ = parts.pop()
+                if isinstance(t_, ast.BoolOp):
+                    parts.extend(t_.values)
+                elif isinstance(t_, ast.UnaryOp) and isinstance(t_.op, ast.Not):
+                    parts.append(t_.operand)
+                elif isinstance(t_, ast.Name) and t_.id in ('lower', 'upper', 'maxdev') and t_.id in params and fa.is_param(t_):
+                    ctx.check(rule, False, f, n_, '',
+                              msg='djs_reject decides whether the limit `%s` was given by its truth value (`%s`): %s=0, a legitimate limit that rejects every point on '
+                                  'that side of the model, is treated as "no limit"' % (t_.id, src(n_.test)[:50], t_.id), construct='limit %s tested by truth value' % t_.id)
     try:
         diff = poly_of(ast.BinOp(left=ast.Name(id=f.params[0], ctx=ast.Load()), op=ast.Sub(), right=ast.Name(id=f.params[1], ctx=ast.Load())))
     except NotPoly:
